@@ -33,7 +33,7 @@ CLAIMED = {
               'every environment: C02_chain_stops (a failing coercer leaves the value unchanged, files one error, no later chain member '
               'runs), C02_leaf_fail/ok, C02_kind (list/tuple kind preserved), C02_unknown_only (rules for unknown fields never touch a '
               'known field), C02_error_shape (code, document path, schema path of normalization errors), C02_purge_unknown, C02_purge_unknown_order (order kept, idempotent), C02_purge_readonly (a successful '
-              'purge of readonly fields removes exactly the items of fields whose readonly is truthy, keeps the order, and met no unresolved rules). The equality '
+              'purge of readonly fields removes exactly the items of fields whose readonly is truthy, keeps the order, and met no unresolved rules), C02_readonly_check_normalized (a child that inherits an already normalized document files no readonly error). The equality '
               'of normalized document and normalization errors with the real code is decided by the normalize / validate ports.'),
         note=COMMON_NOTE + 'Coercers, rename handlers and default setters come from a fixed family with twin definitions (harness/families.py, Model/Env.lean).',
         design='§6 C02'),
